@@ -99,12 +99,12 @@ def render_rich(attr_style, upper, dcolon, idcase):
           "  " + K("end interface"),
           "  " + K("enum, bind(c)"), "    " + K("enumerator") + " :: red = 1, green", "  " + K("end enum"),
           K("contains"),
-          "  " + K("function") + " shape_area(self) " + K("result") + "(a)", "    " + K("class") + "(shape_t), " + K("intent(in)") + " :: self", "    " + K("real") + dc + "a",
+          "  " + K("function") + " shape_area(self) " + K("result") + "(" + U("a") + ")", "    " + K("class") + "(shape_t), " + K("intent(in)") + " :: self", "    " + K("real") + dc + "a",
           "    a = 1.0", "  " + K("end function") + " shape_area",
           "  " + K("function") + " shape_perim(self) " + K("result") + "(a)", "    " + K("class") + "(shape_t), " + K("intent(in)") + " :: self", "    " + K("real") + dc + "a",
           "    a = 2.0", "  " + K("end function") + " shape_perim",
           "  " + K("subroutine") + " shape_done(self)", "    " + K("type") + "(shape_t), " + K("intent(inout)") + " :: self", "  " + K("end subroutine") + " shape_done",
-          "  " + K("integer function") + " total_i(n)", "    " + K("integer, intent(in)") + " :: n", "    total_i = n", "  " + K("end function") + " total_i",
+          "  " + K("function") + " " + U("total_i") + "(n)", "    " + K("integer, intent(in)") + " :: n", "    " + K("integer") + dc + "total_i", "    total_i = n", "  " + K("end function") + " total_i",
           "  " + K("subroutine") + " work(" + U("q") + ", cs, " + U("ext") + ")"]
     if attr_style == "decl":
         L += ["    " + K("integer, intent(inout)") + " :: q", "    " + K("character(len=10), intent(in)") + " :: cs", "    " + K("real, external") + " :: ext",
